@@ -50,7 +50,11 @@ pub fn gen_float(rng: &mut Rng, sw: &Swarm) -> Op {
         23 => Op::new(&nm("powi")).a(a).dst(d).n(rng.range(-6, 12)).form(rng.below(2)),
         24 => Op::new(&nm(rng.pick(&["exp", "ln", "expm1", "ln1p"]))).a(a).dst(d),
         25 | 26 => Op::new(&nm(rng.pick(&["trunc", "floor", "ceil", "round", "fract", "splitpoint"]))).a(a).dst(d).form(form(rng)),
-        27 => Op::new(&nm(rng.pick(&["toint", "tryint"]))).a(a).dst(d),
+        27 => match rng.below(4) {
+            0 | 1 => Op::new(&nm(rng.pick(&["toint", "tryint"]))).a(a).dst(d),
+            2 => Op::new(&nm("asint")).a(a).dst(d).form(rng.below(8)),
+            _ => Op::new(if t == "f" { "f.asf" } else { "d.asint" }).a(a).dst(d).form(rng.below(4)),
+        },
         28 => Op::new(&nm("fromint")).a(a).dst(d).form(rng.below(3)).n(rng.below(300) as i64),
         29 | 30 => Op::new(&nm("withprec")).a(a).dst(d).n(rng.below(400) as i64).form(form(rng)),
         31 => Op::new(&nm("ulp")).a(a).dst(d),
@@ -100,7 +104,11 @@ pub fn gen_ratio(rng: &mut Rng, sw: &Swarm) -> Op {
         20 => Op::new(&nm(rng.pick(&["sqr", "cubic", "inv", "neg", "abs", "signum", "fract"]))).a(a).dst(d).form(form(rng)),
         21 => Op::new(&nm("mulsign")).a(a).dst(d).n(rng.below(2) as i64).form(form(rng)),
         22 => Op::new(&nm("round")).a(a).dst(d).form(rng.below(5)),
-        23 => Op::new(&nm("toint")).a(a).dst(d),
+        23 => match rng.below(3) {
+            0 => Op::new(&nm("toint")).a(a).dst(d),
+            1 => Op::new(&nm("asint")).a(a).dst(d).form(rng.below(8)),
+            _ => Op::new(&nm("asf")).a(a).form(rng.below(4)),
+        },
         24 => Op::new(&nm("fromint")).a(a).dst(d).form(rng.below(2)),
         25 => Op::new(&nm(rng.pick(&["num", "den"]))).a(a).dst(d),
         26 => Op::new(&nm("intoparts")).a(a).dst(d).form(form(rng)),
